@@ -420,7 +420,7 @@ def _iter_cell(o, name, value):
     return RefV(0, ("local", name))
 
 
-@obligation(prop="C03", tier="thorough", timeout=3600, probe="date_iters",
+@obligation(prop="C03", tier="extra", timeout=3600, probe="date_iters",
             desc="iter_days / iter_weeks: next() yields the current date and advances by exactly one day / seven days, returning None (and staying put) when that step would leave the range; next_back() mirrors it towards MIN; size_hint is exactly the number of remaining forward steps, (MAX - current) days resp. whole weeks, for both bounds",
             bounds="all dates as the iterator's current value; one step from any state (the iterators have no other state, so this covers every iteration history); add_days and the date difference through their proved contracts")
 def c03_m_iterators(o):
